@@ -1,2 +1,103 @@
-(* Props/C17.v — property C17 (statements only).  Filled as proofs land. *)
-From PX.Lib Require Import Base.
+(* Props/C17.v — property C17: reference-designator and path addressing is
+   consistent.  Statements only; the grammar is Spec/C17_spec.v. *)
+From Coq Require Import String.
+From PX.Lib Require Import Base PyStr.
+From PX.Model Require Import Path Segment.
+From PX.Spec Require Import C17_spec.
+From PX.Proofs Require Import C17_path C17_segment.
+
+(* Parsing the printed form of any well-formed path (any depth, any ids) yields exactly its parts. *)
+Theorem C17_parse_print :
+  forall p, wf_path p ->
+  exists x, parse_path (print_path p) = Ok x /\
+    relative x = p_rel p /\ loop_list x = p_loops p /\ seg_id x = expected_seg p /\
+    id_val x = expected_qual p /\ ele_idx x = expected_ele p /\ subele_idx x = expected_sub p.
+Proof. exact parse_print. Qed.
+Print Assumptions C17_parse_print.
+
+(* Printing reproduces the text. *)
+Theorem C17_format_parse :
+  forall p x, wf_path p -> parse_path (print_path p) = Ok x -> format_path x = print_path p.
+Proof. exact format_parse. Qed.
+Print Assumptions C17_format_parse.
+
+(* Parsing the printed form gives an equal path. *)
+Theorem C17_reparse_equal :
+  forall p x, wf_path p -> parse_path (print_path p) = Ok x ->
+  exists y, parse_path (format_path x) = Ok y /\ path_eqb x y = true.
+Proof. exact reparse_equal. Qed.
+Print Assumptions C17_reparse_equal.
+
+(* A qualifier or element index that follows loop ids without a segment id is rejected with the path error. *)
+Theorem C17_rejects :
+  forall (rel : bool) loops r,
+  loops <> [] -> forallb wf_loop loops = true -> shape_ok r = true ->
+  r_seg r = None -> (r_qual r <> None \/ r_ele r <> None \/ r_sub r <> None) ->
+  parse_path ((if rel then [] else ["/"%char]) ++ join "/"%char loops ++ "/"%char :: print_refdes r)
+    = Raise X12PathError.
+Proof. exact rejects. Qed.
+Print Assumptions C17_rejects.
+
+(* Segment: write then read the same element designator. *)
+Theorem C17_set_get_element :
+  forall d s i v, value_ok d s i v ->
+  exists s', set_ix d s (zi i, None) v = Ok s' /\
+             get_ix s' (zi i, None) = Ok (GotComp [v]) /\ value_of d (GotComp [v]) = Some v.
+Proof. exact set_get_ele. Qed.
+Print Assumptions C17_set_get_element.
+
+(* ... and component designator. *)
+Theorem C17_set_get_component :
+  forall d s i j v, is_isa16 s i = false ->
+  exists s', set_ix d s (zi i, zi j) v = Ok s' /\ get_ix s' (zi i, zi j) = Ok (GotEle v).
+Proof. exact set_get_comp. Qed.
+Print Assumptions C17_set_get_component.
+
+(* The segment is extended with empty positions exactly as far as needed. *)
+Theorem C17_set_extends :
+  forall d s i cj v s', set_ix d s (zi i, option_map Z.of_nat cj) v = Ok s' ->
+  seg_len s' = Nat.max (seg_len s) (S i) /\ sid s' = sid s.
+Proof. exact set_extends. Qed.
+Print Assumptions C17_set_extends.
+
+(* Every other position is unchanged. *)
+Theorem C17_set_frame :
+  forall d s i j v s', is_isa16 s i = false -> set_ix d s (zi i, zi j) v = Ok s' ->
+  forall i' j', cell s' i' j' = if (i' =? i) && (j' =? j) then v else cell s i' j'.
+Proof. exact set_frame_comp. Qed.
+Print Assumptions C17_set_frame.
+
+Theorem C17_set_frame_element :
+  forall d s i v s', value_ok d s i v -> set_ix d s (zi i, None) v = Ok s' ->
+  forall i' j', cell s' i' j' = if i' =? i then (if j' =? 0 then v else []) else cell s i' j'.
+Proof. exact set_frame_ele. Qed.
+Print Assumptions C17_set_frame_element.
+
+(* A designator naming another segment is refused, for set and get. *)
+Theorem C17_other_segment_refused :
+  forall d s rd v xp x, parse_path rd = Ok xp -> seg_id xp = Some x -> sid s <> Some x ->
+  seg_set d s rd v = Raise EngineError /\ seg_get s rd = Raise EngineError.
+Proof. exact other_segment_refused. Qed.
+Print Assumptions C17_other_segment_refused.
+
+(* Arbitrary sequences of writes refine a finite map from positions to values. *)
+Theorem C17_write_sequences :
+  forall d s ops, no_isa16 s ops ->
+  exists s', run_sets d s ops = Ok s' /\ forall i j, cell s' i j = fold_left upd ops (cell s) i j.
+Proof. exact run_sets_refines. Qed.
+Print Assumptions C17_write_sequences.
+
+(* The link between designators and positions: a printed, well-formed designator
+   (with or without the segment's own id) addresses element NN and component M. *)
+From PX.Proofs Require Import C17_link.
+Theorem C17_designator_indices :
+  forall s r e, wf_refdes r = true -> r_ele r = Some e -> (r_seg r = None \/ r_seg r = sid s) ->
+  parse_refdes s (print_refdes r) = Ok (Some (idx_of e), option_map idx_of (r_sub r)).
+Proof. exact refdes_indices. Qed.
+Print Assumptions C17_designator_indices.
+
+Theorem C17_designator_other_segment :
+  forall s r x, wf_refdes r = true -> r_seg r = Some x -> sid s <> Some x ->
+  parse_refdes s (print_refdes r) = Raise EngineError.
+Proof. exact refdes_other_segment. Qed.
+Print Assumptions C17_designator_other_segment.
